@@ -2,6 +2,7 @@ import Splipy.Model.Periodic
 import Mathlib.Tactic.Ring
 import Mathlib.Tactic.FieldSimp
 import Mathlib.Tactic.Linarith
+import Mathlib.Tactic.IntervalCases
 
 /-!
 # Lemmas for property C08: the control-point merge of `make_periodic`
@@ -96,5 +97,38 @@ theorem Obj.periodicWeight_last (k : ℕ) (hk : 1 ≤ k) : (Obj.periodicWeight k
   have h : k ≠ 0 := by omega
   have h' : (k : K) ≠ 0 := by exact_mod_cast h
   simp [Obj.periodicWeight, h]
+
+/-- The merge of `make_periodic(k)` for `k ≤ 1` returns the periodic net when rows `k … n` of the
+opened net are the periodic rows `r mod n`. -/
+theorem Obj.mergeCps_k_le_1 (cps : Tensor K) (dir n k : ℕ) (hk : k ≤ 1)
+    (hn : 1 ≤ n) (hax : dir < cps.shape.length) (hrows : cps.shape.getD dir 0 = n + k + 1)
+    (c : ℕ → ℕ → ℕ → K)
+    (a r i : ℕ) (hOpen : ∀ r, k ≤ r → r ≤ n → cps.at3 dir a r i = c a (r % n) i)
+    (hr : r < n) (hi : i < (Tensor.split3 cps.shape dir).2.2)
+    (ha : a < (Tensor.split3 cps.shape dir).1) :
+    (Obj.mergeCps cps dir k).at3 dir a r i = c a r i := by
+  rw [Obj.mergeCps_at3 cps dir k a r i hax (by omega) hi ha, hrows,
+    show n + k + 1 - (k + 1) = n by omega]
+  have hmod : r % n = r := Nat.mod_eq_of_lt hr
+  interval_cases k
+  · split_ifs with h
+    · have hr0 : r = 0 := by omega
+      subst hr0
+      rw [Obj.periodicWeight_zero_zero, hOpen 0 (le_refl _) (by omega),
+        hOpen (n + 0) (by omega) (by omega)]
+      simp only [Nat.add_zero, Nat.mod_self, Nat.zero_mod]
+      ring
+    · rw [hOpen r (by omega) (by omega), hmod]
+  · split_ifs with h
+    · rcases Nat.eq_zero_or_pos r with hr0 | hr0
+      · subst hr0
+        rw [Obj.periodicWeight_first 1 (le_refl _), hOpen (n + 0) (by omega) (by omega)]
+        simp only [Nat.add_zero, Nat.mod_self]
+        ring
+      · have hr1 : r = 1 := by omega
+        subst hr1
+        rw [Obj.periodicWeight_last 1 (le_refl _), hOpen 1 (le_refl _) (by omega), hmod]
+        ring
+    · rw [hOpen r (by omega) (by omega), hmod]
 
 end Splipy
